@@ -1,4 +1,6 @@
 """C05 — no lost wakeup. DESIGN.md §4 C05."""
+import re
+
 from report import Result
 from rules import protocols as pr
 
@@ -278,6 +280,91 @@ def clause7(P, res):
         res.add(rid, i.key.split(":", 2)[2], i.status, i.detail, i.witness, i.nontrivial, i.obligations, i.where)
 
 
+def mir_sources(b, call):
+    """events feeding the receiver operand (the atomic the call operates on)"""
+    import mir
+    return mir.operand_sources(b, call.args[0])[0] if call.args else []
+
+
+def clause8(P, res):
+    from rules import cachelib
+    rid = "C05-8"
+    res.rule(rid, "bounded mpmc, space freed => senders looked at: (a) in try_recv_core / try_recv_batch_core every path from a successful dequeue to the exit reaches the scan of "
+                  "the waiting-sender queues, except on the zero outcome of a comparison with the constant 0 (nothing dequeued / capacity 0) — a scan gated on a fullness "
+                  "snapshot leaves senders parked below capacity, because single-item receives wake one sender per slot; (b) a sender claimed for a freed slot "
+                  "(compare_exchange WAITING -> SUCCESS_SPACE) is unlinked from its queue before the function returns — a claimed waiter left at the head makes the next "
+                  "receive's claim fail on it and drop the wake")
+    core = "fibre::mpmc_v2::core::"
+    na = nb = 0
+    for b in P.bodies.values():
+        if not b.id.startswith(core) or "::tests::" in b.id:
+            continue
+        scans = [e for e in b.calls() if e.args and re.search(r"waiting_(a?sync|async)_senders$", b.path_of_operand(e.args[0])) and e.method in ("len", "front", "iter", "is_empty", "get", "pop_front")]
+        if b.name in ("try_recv_core", "try_recv_batch_core"):
+            deq = [e for e in b.calls() if e.method in ("pop_front", "drain_into") and e.args and re.search(r"(^|\.)(queue|guard)$|queue$", b.path_of_operand(e.args[0]).split("@")[0])
+                   and "senders" not in b.path_of_operand(e.args[0]) and "receivers" not in b.path_of_operand(e.args[0])]
+            for dq in deq:
+                na += 1
+                key = f"{b.id}:{dq.method}#{sum(1 for x in deq if x.pos < dq.pos)}"
+                starts = [(t, 0) for _, t in cachelib.result_switch_edges(b, dq, "Some")] or [dq.pos]
+                excused = set()
+                for blk in range(len(b.blocks)):
+                    if b.is_cleanup(blk) or b.term(blk)["k"] != "switch":
+                        continue
+                    ss = b.switch_source(blk)
+                    if ss and ss.get("kind") == "cmp" and ss["op"] in ("Gt", "Ne", "Lt", "Eq"):
+                        ks = [(b.const_of_operand(ss["a"]) or {}).get("v"), (b.const_of_operand(ss["b"]) or {}).get("v")]
+                        if 0 in ks:
+                            zl = "true" if ss["op"] == "Eq" else "false"
+                            if ss.get("neg"):
+                                zl = "false" if zl == "true" else "true"
+                            excused |= set(b.edges_by_label(blk).get(zl, []))
+                thr = frozenset(x.pos for x in scans) | frozenset(x.pos for x in b.calls() if x.method in ("claim_next_sender",))
+                exits = set(b.exits())
+                bad = any((st not in thr) and (b.pos_reach_set(st, removed=thr, removed_edges=frozenset(excused), strict=(st == dq.pos)) & exits) for st in starts)
+                if not scans and not any(x.method == "claim_next_sender" for x in b.calls()):
+                    res.violated(rid, key, f"{b.name} frees buffer space at {dq.loc} and never looks at the waiting senders", where=dq.loc)
+                elif bad:
+                    res.violated(rid, key, f"after the dequeue at {dq.loc} a path reaches the exit without looking at the waiting senders although space was freed: the scan is "
+                                 "conditional on something other than the dequeued count (a fullness snapshot, a flag)", where=dq.loc)
+                else:
+                    res.holds(rid, key, "space freed => waiting senders scanned", where=dq.loc)
+        for e in b.calls():
+            if not (e.is_atomic and e.method.startswith("compare_exchange") and len(e.args) >= 3):
+                continue
+            cs = [str((b.const_of_operand(a) or {}).get("path", "")) for a in e.args[1:3]]
+            if not (cs[0].endswith("STATE_WAITING") and cs[1].endswith("STATE_SUCCESS_SPACE")):
+                continue
+            if b.name in ("close_internal",) or "close" in b.name:
+                continue  # wake-all on close: every waiter is claimed and woken, nothing is metered
+            nb += 1
+            key = f"{b.id}:claim#{sum(1 for x in b.calls() if x.is_atomic and x.pos < e.pos)}"
+            oks = cachelib.result_switch_edges(b, e, "Ok")
+            for s2 in b.calls():
+                if s2.method in ("is_ok", "is_err") and s2.args and b.producer_call(s2.args[0]) is e:
+                    for blk in range(len(b.blocks)):
+                        if not b.is_cleanup(blk) and b.term(blk)["k"] == "switch":
+                            ss = b.switch_source(blk)
+                            if ss and ss.get("kind") == "call" and ss["event"] is s2:
+                                lab = "true" if s2.method == "is_ok" else "false"
+                                if ss.get("neg"):
+                                    lab = "false" if lab == "true" else "true"
+                                oks += b.edges_by_label(blk).get(lab, [])
+            unlinks = [x for x in b.calls() if x.method in ("remove", "pop_front", "swap_remove_back", "retain") and x.args and re.search(r"waiting_\w+$", b.path_of_operand(x.args[0]))]
+            if not oks:
+                res.unclassified(rid, key, "outcome of the claim is not branched on in a recognised form", where=e.loc)
+            elif unlinks and (cachelib.all_paths_pass(b, [(t, 0) for _, t in oks], [x.pos for x in unlinks]) or
+                              any(x.method == "pop_front" and b.dominated_by_any(e.pos, {x.pos}) and e in [y for y in b.calls() if x in mir_sources(b, y)] for x in unlinks)):
+                res.holds(rid, key, f"claimed sender unlinked at {unlinks[0].loc}", where=e.loc)
+            else:
+                res.violated(rid, key, f"a sender is claimed for a freed slot at {e.loc} and stays linked in its queue: the next receive finds it at the head already claimed, its "
+                             "claim fails and the wake for the second freed slot is dropped — senders behind it stay parked with room in the buffer", where=e.loc)
+    if na < 2:
+        res.violated(rid, "dequeue-sites", f"expected >= 2 dequeue sites in try_recv_core/try_recv_batch_core, found {na}")
+    if nb < 2:
+        res.violated(rid, "claim-sites", f"expected >= 2 WAITING->SUCCESS_SPACE claim sites in the bounded mpmc core, found {nb}")
+
+
 def run(P, ctx):
     res = Result("C05")
     res.extra["explanation"] = "Park/notify protocol shapes at every site that blocks a thread in fibre's channels."
@@ -288,4 +375,5 @@ def run(P, ctx):
     clause5(P, res)
     clause6(P, res)
     clause7(P, res)
+    clause8(P, res)
     return res
